@@ -5,17 +5,21 @@
 (* through lexer + lossless parser.  Serves C09 and the relation part of    *)
 (* C02.  One REPLAY line per (input, allow).                                *)
 EXTENDS Rel, Json
-CONSTANTS N, M, M2
+CONSTANTS N, M, M2, M3
 Deep == {"I", "(", "[", "<", "!", "W", "$", "{", ":"}
 \* ... and up to length M2 over the alphabet of COMPLETE groups (openers with their closers and the two separators),
 \* which reaches the recovery arms entered after a closed group
 Closed == {"I", "(", ")", "[", "]", "<", ">", ",", "|"}
+\* ... and up to length M3 over the alphabet of substitution variables
+Subst == {"$", "{", "}", "I", "W", ":"}
 MCInit ==
   \/ \E n \in 0..N : \E s \in [1..n -> RelClass] : \E a \in BOOLEAN :
         InitWith([text |-> s, toks |-> Lex(s), allow |-> a])
   \/ \E n \in (N+1)..M : \E s \in [1..n -> Deep] : \E a \in BOOLEAN :
         InitWith([text |-> s, toks |-> Lex(s), allow |-> a])
   \/ \E n \in (N+1)..M2 : \E s \in [1..n -> Closed] : \E a \in BOOLEAN :
+        InitWith([text |-> s, toks |-> Lex(s), allow |-> a])
+  \/ \E n \in (N+1)..M3 : \E s \in [1..n -> Subst] : \E a \in BOOLEAN :
         InitWith([text |-> s, toks |-> Lex(s), allow |-> a])
 Emit == Done => PrintT(<<"REPLAY", ToJson([
            i |-> case.text, a |-> case.allow,
